@@ -315,7 +315,12 @@ func Replay(i int, raw []byte) child.Result {
 		case "panic":
 			det := input()
 			det["panic"] = resp.Panic
-			fails = append(fails, &failure{Sig: "hostile/" + resp.Panic.Site + "/panic-" + resp.Panic.Class, Entry: en.Name, Detail: det})
+			sig := "hostile/" + resp.Panic.Site + "/panic-" + resp.Panic.Class
+			if resp.Stage != "" {
+				// the bytes had passed the validating step: a different defect than a crash on unvalidated bytes
+				sig = "hostile/" + en.Name + "/" + resp.Stage + "-then-panic-" + resp.Panic.Class
+			}
+			fails = append(fails, &failure{Sig: sig, Entry: en.Name, Detail: det})
 		case "ok":
 			demand := ""
 			switch en.Demand {
